@@ -1,1 +1,325 @@
-"""placeholder; filled in below"""
+"""Python `ast` -> Lean 4 translator for the pure decision functions of fastparquet (DESIGN §3.2).
+
+Target: PqV.Prelude.Py (`Py α = Except PyErr α`, `PyVal`, pyLt/pyGt/..., pySorted, searchsorted*).
+Statements are translated in continuation-passing style into nested `pyIf` / binds, so the output
+is a plain functional term that `simp` can evaluate once the optional arguments are case-split.
+
+Anything outside the supported subset raises `Unsupported` — the caller turns that into a broken
+proof obligation (never a silent skip).
+"""
+import ast, os, textwrap
+from tools.translate import register
+
+
+class Unsupported(Exception):
+    pass
+
+
+LEAN_T = {"str": "String", "int": "Int", "opt": "(Option Int)", "list": "(List Int)", "bool": "Bool",
+          "nat": "Nat", "pyval": "PyVal"}
+
+
+class FnCtx:
+    def __init__(self, name, params, ret, known, duals):
+        self.name, self.params, self.ret, self.known, self.duals = name, params, ret, known, duals
+        self.env = dict(params)
+        self.tmp = 0
+        self.notes = []
+
+    def fresh(self, base="t"):
+        self.tmp += 1
+        return f"{base}_{self.tmp}"
+
+
+def lean_name(n):
+    return n.lstrip("_")
+
+
+def lit_str(s):
+    return '"' + s.replace("\\", "\\\\").replace('"', '\\"') + '"'
+
+
+def wrap(binds, term):
+    """binds: [(name, monadic term)] executed left to right, then `term` (a Py _)."""
+    term = f"({term})"
+    for name, m in reversed(binds):
+        term = f"({m} >>= fun {name} => {term})"
+    return term
+
+
+def expr(e, cx):
+    """-> (binds, pure term, type)"""
+    if isinstance(e, ast.Name):
+        if e.id not in cx.env:
+            raise Unsupported(f"unknown name {e.id} in {cx.name}")
+        return [], lean_name(e.id), cx.env[e.id]
+    if isinstance(e, ast.Constant):
+        if e.value is None:
+            return [], "PyVal.none", "pyval"
+        if isinstance(e.value, bool):
+            return [], ("true" if e.value else "false"), "bool"
+        if isinstance(e.value, int):
+            return [], f"({e.value} : Int)", "int"
+        if isinstance(e.value, str):
+            return [], lit_str(e.value), "str"
+        raise Unsupported(f"constant {e.value!r}")
+    if isinstance(e, ast.UnaryOp) and isinstance(e.op, ast.USub):
+        b, t, ty = expr(e.operand, cx)
+        return b, f"(-{t})", ty
+    if isinstance(e, ast.List):
+        parts = [expr(x, cx) for x in e.elts]
+        if all(p[2] == "str" for p in parts):
+            return [], "[" + ", ".join(p[1] for p in parts) + "]", "strlist"
+        if all(p[2] == "int" for p in parts):
+            return [], "[" + ", ".join(p[1] for p in parts) + "]", "list"
+        raise Unsupported("heterogeneous list literal")
+    if isinstance(e, ast.Call):
+        f = e.func
+        if isinstance(f, ast.Name) and f.id == "sorted" and len(e.args) == 1:
+            b, t, ty = expr(e.args[0], cx)
+            if ty != "list":
+                raise Unsupported("sorted() of non-list")
+            return b, f"(pySorted {t})", "list"
+        if isinstance(f, ast.Name) and f.id == "len" and len(e.args) == 1:
+            b, t, ty = expr(e.args[0], cx)
+            if ty != "list":
+                raise Unsupported("len() of non-list")
+            return b, f"(({t}).length : Int)", "int"
+        if (isinstance(f, ast.Attribute) and f.attr == "searchsorted" and isinstance(f.value, ast.Name)
+                and f.value.id == "np" and len(e.args) == 2):
+            side = "left"
+            for kw in e.keywords:
+                if kw.arg == "side" and isinstance(kw.value, ast.Constant):
+                    side = kw.value.value
+                else:
+                    raise Unsupported("searchsorted keyword")
+            if side not in ("left", "right"):
+                raise Unsupported("searchsorted side")
+            b1, t1, ty1 = expr(e.args[0], cx)
+            b2, t2, ty2 = expr(e.args[1], cx)
+            if ty1 != "list":
+                raise Unsupported("searchsorted on non-list")
+            n = cx.fresh("ss")
+            fn = "searchsortedLeft" if side == "left" else "searchsortedRight"
+            return b1 + b2 + [(n, f"{fn} {t1} (toPy {t2})")], n, "nat"
+        if isinstance(f, ast.Name) and lean_name(f.id) in cx.known:
+            callee = cx.known[lean_name(f.id)]
+            if e.keywords:
+                raise Unsupported("keyword call")
+            binds, args = [], []
+            for (pn, pt), a in zip(callee["params"], e.args):
+                if isinstance(a, ast.Name) and cx.env.get(a.id) != pt and (a.id, pt) in cx.duals:
+                    args.append(cx.duals[(a.id, pt)])
+                    continue
+                b, t, ty = expr(a, cx)
+                if ty != pt:
+                    raise Unsupported(f"call {f.id}: argument type {ty} != {pt}")
+                binds += b
+                args.append(t)
+            n = cx.fresh("r")
+            return binds + [(n, f"{lean_name(f.id)} " + " ".join(args))], n, callee["ret"]
+        raise Unsupported(f"call {ast.dump(f)[:60]}")
+    if isinstance(e, ast.Subscript):
+        b, t, ty = expr(e.value, cx)
+        if ty != "list":
+            raise Unsupported("subscript of non-list")
+        bi, ti, tyi = expr(e.slice, cx)
+        if tyi != "int":
+            raise Unsupported("non-int index")
+        n = cx.fresh("ix")
+        return b + bi + [(n, f"pyIndex {t} {ti}")], n, "pyval"
+    if isinstance(e, ast.BinOp):
+        ops = {ast.Add: "+", ast.Sub: "-", ast.Mult: "*", ast.FloorDiv: "/", ast.Mod: "%"}
+        if type(e.op) in ops:
+            b1, t1, ty1 = expr(e.left, cx)
+            b2, t2, ty2 = expr(e.right, cx)
+            if ty1 == ty2 == "int":
+                return b1 + b2, f"({t1} {ops[type(e.op)]} {t2})", "int"
+        raise Unsupported("binop")
+    raise Unsupported(f"expression {type(e).__name__}")
+
+
+def cond(e, cx):
+    """-> Lean term of type `Py Bool`"""
+    if isinstance(e, ast.BoolOp):
+        terms = [cond(v, cx) for v in e.values]
+        fn = "pyAnd" if isinstance(e.op, ast.And) else "pyOr"
+        out = terms[-1]
+        for t in reversed(terms[:-1]):
+            out = f"({fn} {t} {out})"
+        return out
+    if isinstance(e, ast.UnaryOp) and isinstance(e.op, ast.Not):
+        return f"(pyNot {cond(e.operand, cx)})"
+    if isinstance(e, ast.Constant) and isinstance(e.value, bool):
+        return f"(Except.ok {'true' if e.value else 'false'})"
+    if isinstance(e, ast.Call) and isinstance(e.func, ast.Name) and e.func.id == "isinstance":
+        # model values are scalars: `isinstance(v, np.ndarray)` is false in the model (abstraction)
+        if (len(e.args) == 2 and isinstance(e.args[1], ast.Attribute) and e.args[1].attr == "ndarray"):
+            cx.notes.append("isinstance(_, np.ndarray) := false (arrays are unwrapped before the model)")
+            return "(Except.ok false)"
+        raise Unsupported("isinstance")
+    if isinstance(e, ast.Compare):
+        if len(e.ops) != 1:
+            raise Unsupported("chained comparison")
+        op, l, r = e.ops[0], e.left, e.comparators[0]
+        if isinstance(op, (ast.Is, ast.IsNot)):
+            if not (isinstance(r, ast.Constant) and r.value is None):
+                raise Unsupported("is / is not with non-None")
+            b, t, ty = expr(l, cx)
+            fn = "pyIsNone" if isinstance(op, ast.Is) else "pyIsNotNone"
+            return wrap(b, f"{fn} (toPy {t})")
+        b1, t1, ty1 = expr(l, cx)
+        b2, t2, ty2 = expr(r, cx)
+        if isinstance(op, (ast.In, ast.NotIn)):
+            neg = isinstance(op, ast.NotIn)
+            if ty2 == "strlist" and ty1 == "str":
+                core = f"Except.ok ({'!' if neg else ''}({t2}).contains {t1})"
+            elif ty2 == "list":
+                core = f"{'pyNotIn' if neg else 'pyIn'} (toPy {t1}) {t2}"
+            else:
+                raise Unsupported("in on unsupported types")
+            return wrap(b1 + b2, core)
+        if ty1 == "str" and ty2 == "str":
+            if isinstance(op, ast.Eq):
+                return wrap(b1 + b2, f"Except.ok ({t1} == {t2})")
+            if isinstance(op, ast.NotEq):
+                return wrap(b1 + b2, f"Except.ok ({t1} != {t2})")
+            raise Unsupported("string ordering")
+        fns = {ast.Lt: "pyLt", ast.LtE: "pyLe", ast.Gt: "pyGt", ast.GtE: "pyGe", ast.Eq: "pyEq", ast.NotEq: "pyNe"}
+        if type(op) not in fns:
+            raise Unsupported("comparison op")
+        if ty1 == "nat" and ty2 == "nat" and isinstance(op, ast.Eq):
+            return wrap(b1 + b2, f"Except.ok ({t1} == {t2})")
+        ok = {"int", "opt", "pyval", "nat"}
+        if ty1 not in ok or ty2 not in ok:
+            raise Unsupported(f"comparison of {ty1} and {ty2}")
+        return wrap(b1 + b2, f"{fns[type(op)]} (toPy {t1}) (toPy {t2})")
+    if isinstance(e, ast.Name) and cx.env.get(e.id) == "bool":
+        return f"(Except.ok {lean_name(e.id)})"
+    raise Unsupported(f"condition {type(e).__name__}")
+
+
+def mentions_ndarray(e):
+    return any(isinstance(n, ast.Attribute) and n.attr == "ndarray" for n in ast.walk(e))
+
+
+def block(stmts, k, cx):
+    """translate statement list with continuation term k (or None) -> Lean term : Py R"""
+    if not stmts:
+        if k is None:
+            raise Unsupported(f"{cx.name}: control reaches end of function without return")
+        return k
+    s, rest = stmts[0], stmts[1:]
+    if isinstance(s, ast.Expr) and isinstance(s.value, ast.Constant) and isinstance(s.value.value, str):
+        return block(rest, k, cx)      # docstring
+    if isinstance(s, ast.Return):
+        v = s.value
+        if v is None:
+            raise Unsupported("bare return")
+        if isinstance(v, (ast.Compare, ast.BoolOp)) or (isinstance(v, ast.UnaryOp) and isinstance(v.op, ast.Not)) \
+                or (isinstance(v, ast.Constant) and isinstance(v.value, bool)):
+            if cx.ret != "bool":
+                raise Unsupported("boolean return in non-bool function")
+            return cond(v, cx)
+        b, t, ty = expr(v, cx)
+        if ty != cx.ret:
+            if cx.ret == "opt" and ty == "pyval" and t == "PyVal.none":
+                t = "(none : Option Int)"
+            else:
+                raise Unsupported(f"{cx.name}: return type {ty} != {cx.ret}")
+        # tail call: `return f(...)` -> the call itself
+        if b and b[-1][0] == t:
+            return wrap(b[:-1], b[-1][1])
+        return wrap(b, f"Except.ok {t}")
+    if isinstance(s, ast.Assign):
+        if len(s.targets) != 1 or not isinstance(s.targets[0], ast.Name):
+            raise Unsupported("assignment target")
+        name = s.targets[0].id
+        b, t, ty = expr(s.value, cx)
+        old = cx.env.get(name)
+        cx.env[name] = ty
+        body = block(rest, k, cx)
+        cx.env[name] = ty
+        if b and b[-1][0] == t:
+            # x = f(...)  ->  f ... >>= fun x => rest
+            return wrap(b[:-1], f"({b[-1][1]} >>= fun {lean_name(name)} => {body})")
+        return wrap(b, f"(let {lean_name(name)} := {t}; {body})")
+    if isinstance(s, ast.If):
+        kk = block(rest, k, cx) if (rest or k is not None) else None
+        if mentions_ndarray(s.test):
+            cx.notes.append(f"{cx.name}: branch guarded by isinstance(_, np.ndarray) is dead in the model")
+            if kk is None:
+                raise Unsupported("ndarray guard at end of function")
+            return kk
+        c = cond(s.test, cx)
+        env0 = dict(cx.env)
+        t = block(s.body, kk, cx)
+        cx.env = dict(env0)
+        e = block(s.orelse, kk, cx) if s.orelse else kk
+        cx.env = env0
+        if e is None:
+            raise Unsupported(f"{cx.name}: if without else at end of function")
+        return f"(pyIf {c}\n  {t}\n  {e})"
+    if isinstance(s, ast.Pass):
+        return block(rest, k, cx)
+    raise Unsupported(f"statement {type(s).__name__} in {cx.name}")
+
+
+def translate_function(fn_ast, params, ret, known, duals):
+    cx = FnCtx(lean_name(fn_ast.name), params, ret, known, duals)
+    declared = [a.arg for a in fn_ast.args.args]
+    want = [p for p, _ in params if (p, ) and p in declared]
+    if declared != [p for p, _ in params if p in declared] or len(want) != len(declared):
+        raise Unsupported(f"{fn_ast.name}: parameter list changed: {declared}")
+    body = block(fn_ast.body, None, cx)
+    sig = " ".join(f"({lean_name(p)} : {LEAN_T[t]})" for p, t in params)
+    src = f"def {cx.name} {sig} : Py {LEAN_T[ret]} :=\n  {body}\n"
+    return src, cx.notes
+
+
+# --------------------------------------------------------------------------- Gen.Filter
+
+FILTER_FUNCS = [
+    ("_handle_np_array", [("v", "opt")], "opt", {}),
+    ("filter_in", [("values", "list"), ("vmin", "opt"), ("vmax", "opt")], "bool", {}),
+    ("filter_not_in", [("values", "list"), ("vmin", "opt"), ("vmax", "opt")], "bool", {}),
+    # `val` is a scalar for the comparison operators and a list for in / not in: two parameters
+    ("filter_val", [("op", "str"), ("val", "int"), ("vals", "list"), ("vmin", "opt"), ("vmax", "opt")], "bool",
+     {("val", "list"): "vals"}),
+]
+
+
+def find_func(tree, name):
+    for n in tree.body:
+        if isinstance(n, ast.FunctionDef) and n.name == name:
+            return n
+    raise Unsupported(f"function {name} not found")
+
+
+@register("Filter")
+def gen_filter(repo):
+    src = open(os.path.join(repo, "fastparquet", "api.py")).read()
+    tree = ast.parse(src)
+    known, out, notes = {}, [], []
+    for name, params, ret, duals in FILTER_FUNCS:
+        fn = find_func(tree, name)
+        # parameters of the python function (the dual `vals` is ours)
+        py_params = [(p, t) for p, t in params if not any(p == d for d in duals.values())]
+        declared = [a.arg for a in fn.args.args]
+        if declared != [p for p, _ in py_params]:
+            raise Unsupported(f"{name}: parameters are now {declared}")
+        cx_src, n = translate_function_with(fn, params, ret, known, duals)
+        out.append(f"/-- translated from `fastparquet/api.py::{name}` (line {fn.lineno}) -/\n" + cx_src)
+        notes += n
+        known[lean_name(name)] = {"params": params, "ret": ret}
+    header = ("-- REGENERATED on every run by tools/translate_py.py from fastparquet/api.py — do not edit\n"
+              "import PqV.Prelude.Py\nnamespace PqV.Gen.Filter\nopen PqV.Py\n\n")
+    note_txt = "".join(f"-- note: {x}\n" for x in sorted(set(notes)))
+    return header + note_txt + "\n" + "\n".join(out) + "\nend PqV.Gen.Filter\n"
+
+
+def translate_function_with(fn, params, ret, known, duals):
+    cx = FnCtx(lean_name(fn.name), params, ret, known, duals)
+    body = block(fn.body, None, cx)
+    sig = " ".join(f"({lean_name(p)} : {LEAN_T[t]})" for p, t in params)
+    return f"def {cx.name} {sig} : Py {LEAN_T[ret]} :=\n  {body}\n", cx.notes
